@@ -301,7 +301,19 @@ pub fn record_run(run: usize, seed: u64) -> (Vec<Value>, HashMap<String, u32>) {
                 Ok(t) => r.produced("append3p", json!({"from": from + 1, "nk": nk, "ek": ek}), t, root),
                 Err(_) => r.events.push(json!({"ev": "refused", "op": "append3p", "from": from + 1})),
             }
-        } else if choice < 80 {
+        } else if choice < 70 {
+            // the request step of the third-party protocol alone
+            let res = if unv { r.toks[from].0.as_unverified().third_party_request().map(|_| ()) } else {
+                match &r.toks[from].0 {
+                    Tok::V(b) => b.third_party_request().map(|_| ()),
+                    Tok::U(u) => u.third_party_request().map(|_| ()),
+                }
+            };
+            match res {
+                Ok(()) => r.events.push(json!({"ev": "request", "from": from + 1})),
+                Err(_) => r.events.push(json!({"ev": "refused", "op": "request", "from": from + 1})),
+            }
+        } else if choice < 82 {
             let res = match &r.toks[from].0 {
                 Tok::V(b) => b.seal().map(Tok::V),
                 Tok::U(u) => u.seal().map(Tok::U),
